@@ -191,7 +191,10 @@ def run(ctx, prop):
                 if mw is not None:
                     dis = B.envelope_vs_model(a, mw, op)
                 if prop == "C03":
-                    fails = fails + dis
+                    # the bytes stubs put on the wire and skeletons accept: a disagreement with the
+                    # reference encoding, or a call that one backend's skeleton refuses / mis-reads
+                    # although another backend's stub produced it (sizes of output buffers included)
+                    fails = B.identity_failures(a) + dis
                     dis = []
                 key = (tuple(sorted((p["dir"], idl.param_kind(case, p)) for p in m["params"])), pair)
                 distinct.add(key)
@@ -238,6 +241,24 @@ def run(ctx, prop):
                                                          "method": idl.render_member(m_).strip(), "call": a_["call"]}, "failures": [f_]})
         finally:
             os.environ.pop("BENCH_KEEP_OO", None)
+    if prop == "C05":
+        # --no-typed-objects changes only the spelling of object types: the counts stay balanced
+        rest_u, _pu = split_padded(gen.coverage_case("C05-untyped"))
+        with C.Scratch() as tmp:
+            b_, r_, _u = B.build_and_run(ctx, rest_u, os.path.join(tmp, "w"), langs=("c", "cpp", "rust"), valuations=2, typed=False)
+            ctx.bump("evaluations")
+            if b_["ok"] and r_ is not None:
+                for a_ in B.analyse(ctx, rest_u, b_, r_):
+                    owner_, m_, _op = B.method_of(rest_u, a_["call"]["iface"], a_["call"]["method"])
+                    if method_classes(rest_u, m_) & set(KNOWN[prop].values()):
+                        continue
+                    hist["untyped_calls"] = hist.get("untyped_calls", 0) + 1
+                    bad_ = B.refcount_failures(a_)
+                    if a_["plan"]["status"] == 0 and a_["ret"] is not None and a_["ret"].get("status") == 0:
+                        bad_ += [f_ for f_ in B.identity_failures(a_) if "output" in f_.get("error", "")]
+                    for f_ in bad_:
+                        oracle_fail.append({"case": {"id": rest_u["id"], "mode": "--no-typed-objects", "method": idl.render_member(m_).strip(), "call": a_["call"]},
+                                            "failures": [f_]})
     if prop == "C03":
         # the bytes a skeleton ACCEPTS: fixed-size slots (bundles in particular) at exactly the
         # prescribed size and no other, for every skeleton backend
